@@ -197,7 +197,8 @@ class Secrets:
                 if w:
                     return w
             r = self.res.resolve_call(e, fi, count=False) if fi is not None else None
-            if r is not None and r.kind == 'repo' and r.targets:
+            if r is not None and r.kind in ('repo', 'dyn') and r.targets:
+                # (dyn: a call through a local that holds one of several repository callables, or a lambda wrapping them)
                 tg = r.targets
                 if r.note.startswith('cha'):
                     # name-based fallback: prefer the candidates of the calling module (ChildSa.to_dict in ikesa.py) when there are any
